@@ -380,6 +380,7 @@ let run (cmd : sexp) : sexp =
         (match MarkerDisplay.show_marker (keytext "ver") (keytext "str") vshow (fun _ -> failwith "driver: in-list member text") (num pv) (tree a) with
          | Some t -> L [A "ok"; sstr t] | None -> A "none")
       with Miss m -> L [A "oracle-miss"; m])
+  | L [A "tlextra"; a] -> (match TopExtra.top_level_extra (tree a) with Some e -> L [A "some"; smexpr e] | None -> A "none")
   | L [A "dnf"; a] -> L (Stdlib.List.map (fun cl -> L (Stdlib.List.map smexpr cl)) (DnfModel.to_dnf (tree a)))
   | L [A "runi"; pv; pfv; L steps] ->
       (* a whole program with the crate's own recursions on ids: per step the raw id, the arena length, the cache length *)
